@@ -289,3 +289,25 @@ PROPS["C11"] = {
     "mc": [flow_mc("fb", ["{1, 2, 3, 4, 5}", 1, 1, 3, "{1, 2}", "FALSE"], ["{1, 2, 3, 4, 5}", 1, 1, 4, "{1, 2, 3}", "FALSE"])],
     "assumptions": FLOW_ASSUME,
 }
+
+PROPS["C18"] = {
+    "level": "model_checking",
+    "technique": "TLC model checking of an integer model of the generator's single-precision arithmetic (Random.tla) on stratified state bands + exact "
+                 "replay of every record into Generator/shuffle/Tensor::random + exhaustive harness sweep of all states against the model's predicates",
+    "level_text": "Random.tla models the minstd step (Schrage) and the u64->f32 rounding, ratio, index and swap sequence in 32-bit integer arithmetic; "
+                  "TLC checks on the low band, the high band, a coarse grid and the predecessors of all 63 successors with ratio 1 that the raw "
+                  "formula leaves the range exactly there and that the contract index is in bounds and shuffles are permutations; every record "
+                  "(state, length) is replayed: value in [min,max] for 12 intervals, index = model, sequence = minstd, shuffle = model permutation, "
+                  "64-bit seeds above the modulus, Tensor::random shapes/bounds; a sweep over generator states (every 4099th in the quick tier, all "
+                  "2^31-2 in the thorough tier) checks range and bounds",
+    "level_note": "TLC enumerates bands, not all 2^31 states: the full-range statement rests on the harness sweep (plain enumeration against the "
+                  "specification's predicates); 64-bit seeds are sampled (10 limb patterns)",
+    "rule": "one case = one (state, length) record, one shuffle, or one 64-bit seed; distinct_nontrivial counts distinct ratio-one states plus "
+            "distinct state residues mod 1000 plus shuffles and seeds",
+    "mc": [{"module": "MC_C18",
+            "consts": {"quick": {"Band": 64, "GridStep": 16777216, "MaxLen": 16, "ShuffleLen": "{1, 2, 5, 8}"},
+                       "thorough": {"Band": 4096, "GridStep": 262144, "MaxLen": 64, "ShuffleLen": "{1, 2, 3, 5, 8, 13, 64}"}},
+            "workers": 8, "timeout": {"quick": 600, "thorough": 7200}}],
+    "record": [{"group": "randomsweep"}],
+    "assumptions": COMMON_ASSUMPTIONS + ["harness built with overflow-checks = true (as debug builds are): an arithmetic overflow is a panic"],
+}
